@@ -16,17 +16,17 @@
  *   names are hex, '-' is the empty name.  A key without entry: success with an empty answer.
  * Requests:
  *   spf <domain> SESS ZONE...              -> <ret> <spfexp|N> <mechanism|N> <queries>   (spfr: the same)
- *   makro <ex> <token> <domain> SESS ZONE  -> <ret> <result|N> <queries>
- *   domainspec <domain> <token> SESS ZONE  -> <ret> <domainspec|N> <ip4cidr> <ip6cidr> <queries>
- *   received <spf> <spfexp|N> <mech|N> SESS -> <ret> <bytes written>
- *   badtoken <buf> <pos>                   -> <spfexp>
- *   matchmech <token> <mech> <delims>      -> <n>
- *   modname <token>                        -> <n>
- *   ip4 <token> SESS / ip6 <token> SESS    -> <ret>
- *   pton4 <s> / pton6 <s>                  -> <ret> <addr hex>
- *   ntop <ip 32hex>                        -> <text hex> (as spfreceived prints the client)
- *   matchnet4 <ip32hex> <net 8hex> <mask> / matchnet6 <ip> <net> <mask> -> <0|1>
- *   domainvalid <s>                        -> <0|1>
+ *   spf_makro <ex> <token> <domain> SESS ZONE  -> <ret> <result|N> <queries>
+ *   spf_domainspec <domain> <token> SESS ZONE  -> <ret> <domainspec|N> <ip4cidr> <ip6cidr> <queries>
+ *   spf_received <spf> <spfexp|N> <mech|N> SESS -> <ret> <bytes written>
+ *   spf_badtoken <buf> <pos>                   -> <spfexp>
+ *   spf_matchmech <token> <mech> <delims>      -> <n>
+ *   spf_modname <token>                        -> <n>
+ *   spf_ip4 <token> SESS / spf_ip6 <token> SESS    -> <ret>
+ *   spf_pton4 <s> / spf_pton6 <s>                  -> <ret> <addr hex>
+ *   spf_ntop <ip 32hex>                        -> <text hex> (as spfreceived prints the client)
+ *   spf_matchnet4 <ip32hex> <net 8hex> <mask> / spf_matchnet6 <ip> <net> <mask> -> <0|1>
+ *   spf_domainvalid <s>                        -> <0|1>
  */
 #define _GNU_SOURCE
 #include <arpa/inet.h>
@@ -278,7 +278,7 @@ int main(void)
 			if (xmitstat.spfmechanism) fputs(xmitstat.spfmechanism, stdout); else putchar('N');
 			putchar(' '); put_trace(); putchar('\n');
 			free(xmitstat.spfexp); xmitstat.spfexp = NULL; free(dom);
-		} else if (strcmp(tok[0], "makro") == 0 && n >= 11) {
+		} else if (strcmp(tok[0], "spf_makro") == 0 && n >= 11) {
 			int k = sess_load(tok + 4, n - 4);
 			if (k < 0) { puts(k == -2 ? "PRECOND" : "bad-op"); continue; }
 			for (int i = 4 + k; i < n; i++) zone_add(tok[i]);
@@ -291,7 +291,7 @@ int main(void)
 			if (r == 0) { put_cstr_or_N(res); free(res); } else putchar('N');
 			putchar(' '); put_trace(); putchar('\n');
 			free(t); free(dom);
-		} else if (strcmp(tok[0], "domainspec") == 0 && n >= 10) {
+		} else if (strcmp(tok[0], "spf_domainspec") == 0 && n >= 10) {
 			int k = sess_load(tok + 3, n - 3);
 			if (k < 0) { puts(k == -2 ? "PRECOND" : "bad-op"); continue; }
 			for (int i = 3 + k; i < n; i++) zone_add(tok[i]);
@@ -305,7 +305,7 @@ int main(void)
 			if (r == 0) { put_cstr_or_N(ds); free(ds); printf(" %d %d ", c4, c6); } else printf("N x x ");
 			put_trace(); putchar('\n');
 			free(t); free(dom);
-		} else if (strcmp(tok[0], "received") == 0 && n == 11) {
+		} else if (strcmp(tok[0], "spf_received") == 0 && n == 11) {
 			int k = sess_load(tok + 4, n - 4);
 			if (k < 0) { puts(k == -2 ? "PRECOND" : "bad-op"); continue; }
 			int spf = atoi(tok[1]);
@@ -316,7 +316,7 @@ int main(void)
 			int r = spfreceived(1, spf);
 			printf("%d ", r); puthex(stdout, wbuf, wlen); putchar('\n');
 			free(e); free(m); xmitstat.spfexp = NULL; xmitstat.spfmechanism = NULL;
-		} else if (strcmp(tok[0], "badtoken") == 0 && n == 3) {
+		} else if (strcmp(tok[0], "spf_badtoken") == 0 && n == 3) {
 			char *b = (char *)unhex(tok[1], &l, 1); size_t pos = strtoul(tok[2], NULL, 10);
 			int ok = 0;
 			for (size_t i = 0; i < pos && i < l; i++) if (WSPACE(b[i])) ok = 1;
@@ -325,50 +325,50 @@ int main(void)
 			record_bad_token(b + pos);
 			put_cstr_or_N(xmitstat.spfexp); putchar('\n');
 			free(xmitstat.spfexp); xmitstat.spfexp = NULL; free(b);
-		} else if (strcmp(tok[0], "matchmech") == 0 && n == 4) {
+		} else if (strcmp(tok[0], "spf_matchmech") == 0 && n == 4) {
 			char *t = (char *)unhex(tok[1], &l, 1), *m = (char *)unhex(tok[2], &l2, 1), *d = (char *)unhex(tok[3], &l3, 1);
 			printf("%zu\n", match_mechanism(t, m, d));
 			free(t); free(m); free(d);
-		} else if (strcmp(tok[0], "modname") == 0 && n == 2) {
+		} else if (strcmp(tok[0], "spf_modname") == 0 && n == 2) {
 			char *t = (char *)unhex(tok[1], &l, 1);
 			printf("%zu\n", spf_modifier_name(t));
 			free(t);
-		} else if ((strcmp(tok[0], "ip4") == 0 || strcmp(tok[0], "ip6") == 0) && n == 9) {
+		} else if ((strcmp(tok[0], "spf_ip4") == 0 || strcmp(tok[0], "spf_ip6") == 0) && n == 9) {
 			int k = sess_load(tok + 2, n - 2);
 			if (k < 0) { puts(k == -2 ? "PRECOND" : "bad-op"); continue; }
 			char *t = (char *)unhex(tok[1], &l, 1);
-			printf("%d\n", tok[0][2] == '4' ? spfip4(t) : spfip6(t));
+			printf("%d\n", tok[0][6] == '4' ? spfip4(t) : spfip6(t));
 			free(t);
-		} else if (strcmp(tok[0], "pton4") == 0 && n == 2) {
+		} else if (strcmp(tok[0], "spf_pton4") == 0 && n == 2) {
 			char *t = (char *)unhex(tok[1], &l, 1); struct in_addr a; memset(&a, 0, sizeof(a));
 			int r = inet_pton(AF_INET, t, &a);
 			printf("%d ", r); if (r == 1) puthex(stdout, (unsigned char *)&a, 4); else putchar('-'); putchar('\n');
 			free(t);
-		} else if (strcmp(tok[0], "pton6") == 0 && n == 2) {
+		} else if (strcmp(tok[0], "spf_pton6") == 0 && n == 2) {
 			char *t = (char *)unhex(tok[1], &l, 1); struct in6_addr a; memset(&a, 0, sizeof(a));
 			int r = inet_pton(AF_INET6, t, &a);
 			printf("%d ", r); if (r == 1) puthex(stdout, a.s6_addr, 16); else putchar('-'); putchar('\n');
 			free(t);
-		} else if (strcmp(tok[0], "ntop") == 0 && n == 2) {
+		} else if (strcmp(tok[0], "spf_ntop") == 0 && n == 2) {
 			unsigned char *ip = unhex(tok[1], &l, 0); char b[INET6_ADDRSTRLEN]; struct in6_addr a;
 			if (l != 16) { puts("bad-op"); free(ip); continue; }
 			memcpy(a.s6_addr, ip, 16);
 			if (IN6_IS_ADDR_V4MAPPED(&a)) inet_ntop(AF_INET, &a.s6_addr32[3], b, sizeof(b)); else inet_ntop(AF_INET6, &a, b, sizeof(b));
 			puthex(stdout, (unsigned char *)b, strlen(b)); putchar('\n');
 			free(ip);
-		} else if (strcmp(tok[0], "matchnet4") == 0 && n == 4) {
+		} else if (strcmp(tok[0], "spf_matchnet4") == 0 && n == 4) {
 			unsigned char *ip = unhex(tok[1], &l, 0), *net = unhex(tok[2], &l2, 0); struct in6_addr a; struct in_addr b;
 			if (l != 16 || l2 != 4) { puts("bad-op"); continue; }
 			memcpy(a.s6_addr, ip, 16); memcpy(&b, net, 4);
 			printf("%d\n", ip4_matchnet(&a, &b, (unsigned char)atoi(tok[3])));
 			free(ip); free(net);
-		} else if (strcmp(tok[0], "matchnet6") == 0 && n == 4) {
+		} else if (strcmp(tok[0], "spf_matchnet6") == 0 && n == 4) {
 			unsigned char *ip = unhex(tok[1], &l, 0), *net = unhex(tok[2], &l2, 0); struct in6_addr a, b;
 			if (l != 16 || l2 != 16) { puts("bad-op"); continue; }
 			memcpy(a.s6_addr, ip, 16); memcpy(b.s6_addr, net, 16);
 			printf("%d\n", ip6_matchnet(&a, &b, (unsigned char)atoi(tok[3])));
 			free(ip); free(net);
-		} else if (strcmp(tok[0], "domainvalid") == 0 && n == 2) {
+		} else if (strcmp(tok[0], "spf_domainvalid") == 0 && n == 2) {
 			char *t = (char *)unhex(tok[1], &l, 1);
 			printf("%d\n", domainvalid(t));
 			free(t);
